@@ -190,6 +190,7 @@ func runIODiscipline(p *Program, r *Report) {
 	r.Rule("R13c", "COUNT-ACC: the count of every stream operation is added to the running total that the function returns, before the count variable is reassigned")
 	r.Rule("R13d", "RESTORE-GATE: a restore function returns success only after a consistency check of the restored state that can still fail")
 	r.Rule("R13h", "EOF-IS-TRUNCATION: the stream formats announce how many records follow, so no read of the restore code turns io.EOF into success")
+	r.Rule("R13j", "COUNTED-BEFORE-ERROR-TEST: the count of a stream operation is added to the running total before any return that follows the operation, so that the bytes a failing operation did transfer are part of the count reported with the error")
 	r.Rule("R13i", "FAILING-RETURNS-REPORT-TOTAL: a failing return of a stream function hands out the running total (what was consumed or produced before the failure), not the count of the last operation")
 
 	entries := ioEntries(p)
@@ -315,7 +316,9 @@ type countAcc struct {
 	fname   string
 	total   types.Object // running total of the outermost function
 	n       int
+	nAcc    int       // sites whose count is bound to a variable (R13j instances)
 	firstOp token.Pos // position of the first stream operation seen
+	early   token.Pos // set by consumed: a return that precedes the accumulation of the count
 }
 
 func (ca *countAcc) sawOp(pos token.Pos) {
@@ -406,8 +409,28 @@ func mentions(info *types.Info, e ast.Node, o types.Object) bool {
 // consumed scans the statements after index i of list for the accumulation of
 // count variable v into the running total.
 func (ca *countAcc) consumed(list []ast.Stmt, i int, v types.Object) (bool, string) {
+	ca.early = token.NoPos
 	for _, s := range list[i+1:] {
 		switch st := s.(type) {
+		case *ast.IfStmt:
+			// R13j: a return inside a conditional that comes before the accumulation leaves the
+			// count of this operation out of what it reports, unless it mentions the count itself
+			if ca.early == token.NoPos {
+				ast.Inspect(st, func(n ast.Node) bool {
+					if _, isLit := n.(*ast.FuncLit); isLit {
+						return false
+					}
+					if ret, ok := n.(*ast.ReturnStmt); ok && ca.early == token.NoPos {
+						for _, e := range ret.Results {
+							if mentions(ca.p.Info, e, v) {
+								return true
+							}
+						}
+						ca.early = ret.Pos()
+					}
+					return true
+				})
+			}
 		case *ast.AssignStmt:
 			if st.Tok == token.ADD_ASSIGN && len(st.Lhs) == 1 && ca.obj(st.Lhs[0]) == ca.total && mentions(ca.p.Info, st.Rhs[0], v) {
 				return true, ""
@@ -530,12 +553,19 @@ func (ca *countAcc) site(list []ast.Stmt, i int, st *ast.AssignStmt, call *ast.C
 		ca.r.Violate("R13c", key, pos, "the count of the stream operation is discarded", "in "+ca.fname)
 		return
 	}
+	ca.nAcc++
 	if v == ca.total {
 		ca.r.Discharge("R13c", key, pos, "count assigned straight into the running total", true)
+		ca.r.Discharge("R13j", key+"/counted-before-error-test", pos, "count assigned straight into the running total", true)
 		return
 	}
 	ok, why := ca.consumed(list, i, v)
 	if ok {
+		if ca.early != token.NoPos {
+			ca.r.Violate("R13j", key+"/counted-before-error-test", ca.p.Pos(ca.early), fmt.Sprintf("the return here comes between the stream operation at %s and the accumulation of its count %s into %s: when the operation fails part-way (a sink that took some of the bytes, a stream that ends inside the field, a nested record that failed) the bytes it did transfer are missing from the count reported with the error", pos, v.Name(), ca.total.Name()), "in "+ca.fname)
+		} else {
+			ca.r.Discharge("R13j", key+"/counted-before-error-test", pos, fmt.Sprintf("count %s is added to %s before any return that follows the operation", v.Name(), ca.total.Name()), true)
+		}
 		ca.r.Discharge("R13c", key, pos, fmt.Sprintf("count %s is added to the running total %s before being reassigned", v.Name(), ca.total.Name()), true)
 	} else {
 		ca.r.Violate("R13c", key, pos, fmt.Sprintf("count %s never reaches the running total %s: %s", v.Name(), ca.total.Name(), why), "in "+ca.fname)
@@ -545,6 +575,7 @@ func (ca *countAcc) site(list []ast.Stmt, i int, st *ast.AssignStmt, call *ast.C
 func runCountAcc(p *Program, r *Report, reach map[*ssa.Function]bool) {
 	total := 0
 	nErrFuncs := 0
+	nAcc := 0
 	for _, fn := range sortedFuncs(p, reach) {
 		if fn.Parent() != nil {
 			continue // closures are visited with their parent
@@ -570,6 +601,7 @@ func runCountAcc(p *Program, r *Report, reach map[*ssa.Function]bool) {
 		}
 		ca.stmts(decl.Body.List)
 		total += ca.n
+		nAcc += ca.nAcc
 		// every success return hands out the running total (or a count it just read)
 		if ca.total != nil {
 			okAll := true
@@ -614,6 +646,10 @@ func runCountAcc(p *Program, r *Report, reach map[*ssa.Function]bool) {
 				if o := ca.obj(ret.Results[0]); o == ca.total {
 					return true
 				}
+				// the total plus the count of the operation that just failed
+				if be, isSum := stripConv(ret.Results[0]).(*ast.BinaryExpr); isSum && be.Op == token.ADD && mentions(ca.p.Info, be, ca.total) {
+					return true
+				}
 				if lit, isLit := ret.Results[0].(*ast.BasicLit); isLit && lit.Value == "0" && (ca.firstOp == token.NoPos || ret.Pos() < ca.firstOp) {
 					return true
 				}
@@ -641,6 +677,7 @@ func runCountAcc(p *Program, r *Report, reach map[*ssa.Function]bool) {
 	r.Stats["io.count_sites"] = total
 	r.Floor("R13c", "stream operations whose count is tracked", total, 32)
 	r.Floor("R13i", "stream functions with failing returns", nErrFuncs, 4)
+	r.Floor("R13j", "stream operations whose count is bound to a variable", nAcc, 32)
 }
 
 // ---------------------------------------------------------------------------
